@@ -96,6 +96,17 @@ func (sc *Scenario) eth(from *core.Account, to *common.Address, value *big.Int, 
 	return res
 }
 
+// ethAny delivers an EVM transaction whose outcome is not scripted (it only has to be the same everywhere).
+func (sc *Scenario) ethAny(from *core.Account, to *common.Address, value *big.Int, data []byte) bool {
+	tx, err := sc.A.EthTx(from, to, value, 4_000_000, data)
+	if err != nil {
+		return false
+	}
+	res := core.DecodeEthResult(sc.A.Deliver(tx))
+	sc.cover("msg:/ethermint.evm.v1.MsgEthereumTx")
+	return res.OK()
+}
+
 func trunc(s string) string {
 	if len(s) > 200 {
 		return s[:200]
@@ -572,6 +583,25 @@ func BuildScenario(seed int64, pow bool) (*Scenario, error) {
 			sc.cover("hook:gov")
 		} else {
 			sc.fail("gov.vote pack: %v", err)
+		}
+		// weighted votes through the contract: an ordinary one, and one that lists an option twice (refused today;
+		// whatever the handler does with it, every node must do the same)
+		type optionWeight struct {
+			Option uint32
+			Weight uint64
+		}
+		for i, opts := range [][]optionWeight{
+			{{uint32(govtypes.OptionYes), 60}, {uint32(govtypes.OptionNo), 40}},
+			{{uint32(govtypes.OptionYes), 30}, {uint32(govtypes.OptionNo), 40}, {uint32(govtypes.OptionYes), 30}},
+			{{uint32(govtypes.OptionAbstain), 10}, {uint32(govtypes.OptionNoWithVeto), 20}, {uint32(govtypes.OptionAbstain), 30}, {uint32(govtypes.OptionNo), 15}, {uint32(govtypes.OptionNoWithVeto), 25}},
+		} {
+			d, err := govcontract.GovContract.ABI.Pack("vote0", sc.nextProp, opts)
+			if err != nil {
+				sc.fail("gov.voteWeighted pack: %v", err)
+				break
+			}
+			res := sc.ethAny(u1, &ga, nil, d)
+			sc.cover(fmt.Sprintf("hook:gov-weighted-%d-ok=%v", i, res))
 		}
 	}
 	w.Roll(a)
